@@ -143,3 +143,12 @@ func ZZ_C09_bls12381_G2_decoder_sees_exact_coordinates() {
 	zzAssert(zzBytesEq(ff.ZZDecoded[2], b[ff.Fp2Size:ff.Fp2Size+ff.FpSize]), "G2 uncompressed: y.c1 bytes reach the range check unmodified")
 	zzAssert(zzBytesEq(ff.ZZDecoded[3], b[ff.Fp2Size+ff.FpSize:G2Size]), "G2 uncompressed: y.c0 bytes reach the range check unmodified")
 }
+
+// scalar multiplication as an uninterpreted function of (scalar, point) (set "g1smuf"): used by the
+// C11 schedule harnesses of sign/bls, which decide the key cache, not the group arithmetic
+
+//zz:replace (*ecc/bls12381.G1).ScalarMult set=g1smuf
+func zzStubG1ScalarMult(g *G1, k *Scalar, P *G1) { zzUFObj("g1.scalarmult", g, k, P) }
+
+//zz:replace (*ecc/bls12381.G2).ScalarMult set=g1smuf
+func zzStubG2ScalarMult(g *G2, k *Scalar, P *G2) { zzUFObj("g2.scalarmult", g, k, P) }
